@@ -18,8 +18,21 @@ def run(tier, argv):
     for mod, label in (("GenRules", "rules"), ("GenTypes", "types"), ("GenExample", "example")):
         docs, cases, nd, nc = semcommon.generate(work, rep, mod, mod + ".cfg", {"Level": "1"}, label)
         files.append(cases)
+    # edge values of every rule on every kind of example (TLC-generated product)
+    rawe = work.path("edge.txt")
+    re_ = vlib.tlc(work, "GenEdge", "GenEdge.cfg", consts={"Level": "1" if quick else "2"}, to_file=rawe, timeout=3000)
+    rep.add_tlc(re_, "GenEdge (example x rule x edge value x placement)")
+    edge = work.path("edge.ndjson")
+    ne = 0
+    with open(edge, "w") as f:
+        for l in vlib.tagged_file(rawe, "@@TEXT"):
+            f.write(l + "\n")
+            ne += 1
+    if ne == 0:
+        raise vlib.Infra("GenEdge produced no text")
+    rep.notes["edge_texts"] = ne
     tr = work.path("trace.ndjson")
-    args = ["c07trace", "-corpus", vlib.REPO + "/testdata", "-maxfiles", "60" if quick else "832", "-stride", "13" if quick else "1",
+    args = ["c07trace", "-texts", edge, "-corpus", vlib.REPO + "/testdata", "-maxfiles", "60" if quick else "832", "-stride", "13" if quick else "1",
             "-cases", ",".join(files), "-mut", "400" if quick else "20000", "-out", tr]
     p = vlib.run_harness(hbin, args, timeout=12000)
     if p.returncode != 0:
